@@ -59,6 +59,8 @@ pub enum NodesMode {
     Fixed(Vec<NodeRef>),
     /// closest 8 followed by these extra names (hearsay)
     ClosestPlus(Vec<NodeRef>),
+    /// as ClosestPlus in this stub's first answer only, plain Closest afterwards
+    ClosestPlusOnce(Vec<NodeRef>),
     /// 8 fresh virtual nodes, each one bit closer to the target than the answering node
     Chain { limit: u32 },
 }
@@ -209,7 +211,7 @@ impl StubWorld {
                 NodesMode::Closest => self.closest(&target, &me_addr),
                 NodesMode::Empty => vec![],
                 NodesMode::Fixed(l) => l.iter().map(|n| (n.id, n.addr)).collect(),
-                NodesMode::ClosestPlus(l) => {
+                NodesMode::ClosestPlus(l) | NodesMode::ClosestPlusOnce(l) => {
                     let mut v = self.closest(&target, &me_addr);
                     v.extend(l.iter().map(|n| (n.id, n.addr)));
                     v
@@ -278,7 +280,10 @@ impl Stub for StubWorld {
             n
         };
         if let Some(&i) = self.index.get(&to) {
-            let s = self.cfg.stubs[i].clone();
+            let mut s = self.cfg.stubs[i].clone();
+            if nth > 0 && matches!(s.nodes, NodesMode::ClosestPlusOnce(_)) {
+                s.nodes = NodesMode::Closest;
+            }
             let ans = match (&s.get_peers_answer, m.qname()) {
                 (Some(a), Some("get_peers")) => a,
                 _ => &s.answer,
